@@ -21,6 +21,7 @@
     `plac->buffer`): concrete witness. Not a memory error; recorded as an observation.
 -/
 import SfProofs.AlacBounds
+import SfProofs.AlacPos
 namespace Sf.AlacCore
 
 /-- what `alac_decode` may store: frame count, channel count, samples per channel -/
@@ -128,5 +129,80 @@ theorem unpc_block_length (pc1 coefs : List Int) (numactive chanbits denshift : 
     decoded within the bounds, with an error status -/
 example : (decode ⟨16, 2, 40, 10, 14, 255⟩ [0x00, 0x00, 0x10, 0x00, 0x00, 0x00, 0xA0, 0x00, 0x09, 0x9E, 0xFF, 0xFF, 0xFF, 0x12] 14 4096).InBounds 2 :=
   alac_decode_in_bounds _ _ _ _ _ (by decide)
+
+theorem decLoop_fuel (ru : Rules) (cfg : Config) (byteSize : Nat) : ∀ (f : Nat) (s : St), 8 * byteSize ≤ s.r.pos + 3 * f → ∀ g, f ≤ g →
+    decLoop (comp ru byteSize) ru cfg byteSize f s = decLoop (comp ru byteSize) ru cfg byteSize g s := by
+  intro f
+  induction f with
+  | zero =>
+    intro s hs g _
+    cases g with
+    | zero => rfl
+    | succ g =>
+      have hc : s.r.curByte ≥ byteSize := by simp only [Rd.curByte]; omega
+      rw [decLoop, decLoop]
+      simp only [hc, if_true]
+  | succ f ih =>
+    intro s hs g hg
+    obtain ⟨g, rfl⟩ : ∃ g', g = g' + 1 := ⟨g - 1, by omega⟩
+    have key : ∀ s1 : St, s.r.pos + 3 ≤ s1.r.pos →
+        decLoop (comp ru byteSize) ru cfg byteSize f s1 = decLoop (comp ru byteSize) ru cfg byteSize g s1 :=
+      fun s1 h => ih s1 (by omega) g (by omega)
+    rw [decLoop, decLoop]
+    by_cases hc : s.r.curByte ≥ byteSize
+    · simp only [hc, if_true]
+    · simp only [hc, if_false]
+      have hp : ((s.r.read 3).2).pos = s.r.pos + 3 := by simp [read_eq]
+      generalize s.r.read 3 = tr at hp ⊢
+      obtain ⟨tag, r⟩ := tr
+      simp only at hp ⊢
+      by_cases h1 : tag = ID_SCE ∨ tag = ID_LFE
+      · simp only [h1, if_true]
+        have hm := decMono_pos ru byteSize cfg s.numSamples r
+        cases hd : decMono (comp ru byteSize) ru cfg s.numSamples r with
+        | fail st r' => rfl
+        | done n chans r' =>
+          rw [hd] at hm
+          simp only [ElemRes.rd] at hm ⊢
+          rw [key ⟨r', n, n, s.written ++ chans⟩ (by simp only; omega)]
+      · simp only [h1, if_false]
+        by_cases h2 : tag = ID_CPE
+        · simp only [h2, if_true]
+          by_cases h3 : s.written.length + 2 > cfg.numChannels
+          · simp only [h3, if_true]
+          · simp only [h3, if_false]
+            have hm := decPair_pos ru byteSize cfg s.numSamples r
+            cases hd : decPair (comp ru byteSize) ru cfg s.numSamples r with
+            | fail st r' => rfl
+            | done n chans r' =>
+              rw [hd] at hm
+              simp only [ElemRes.rd] at hm ⊢
+              rw [key ⟨r', n, n, s.written ++ chans⟩ (by simp only; omega)]
+        · simp only [h2, if_false]
+          have k1 := key { s with r := (decDse byteSize r).2 } (by have := decDse_pos byteSize r; simp only; omega)
+          have k2 := key { s with r := (decFill byteSize r).2 } (by have := decFill_pos byteSize r; simp only; omega)
+          rw [k1, k2]
+
+/-- the element loop of `alac_decode` ends: `3 * byteSize + 1` rounds are enough for every packet (each round consumes at
+    least the three tag bits while the position is inside the packet) — more fuel never changes the result -/
+theorem alac_decode_total (ru : Rules) (cfg : Config) (image : List Byte) (byteSize numSamples extra : Nat) :
+    decLoop (comp ru byteSize) ru cfg byteSize (3 * byteSize + 1 + extra) ⟨Rd.ofBytes image, numSamples, numSamples, []⟩ =
+      decLoop (comp ru byteSize) ru cfg byteSize (3 * byteSize + 1) ⟨Rd.ofBytes image, numSamples, numSamples, []⟩ :=
+  (decLoop_fuel ru cfg byteSize (3 * byteSize + 1) _ (by simp [Rd.ofBytes]; omega) _ (by omega)).symm
+
+/-- a well-formed-looking hostile packet for a 16-bit stereo file: an ID_SCE element with a partial frame of ONE
+    uncompressed sample, then an ID_LFE element with a partial frame of TWO -/
+def historyPacket : List Byte :=
+  pack (bitsOf ID_SCE 3 ++ bitsOf 0 4 ++ bitsOf 0 12 ++ bitsOf 9 4 ++ bitsOf 1 32 ++ bitsOf 0x1234 16 ++
+        bitsOf ID_LFE 3 ++ bitsOf 0 4 ++ bitsOf 0 12 ++ bitsOf 9 4 ++ bitsOf 2 32 ++ bitsOf 1 16 ++ bitsOf 2 16 ++ bitsOf ID_END 3)
+
+/-- the frames `alac_decode` leaves in `plac->buffer` are NOT a function of the packet alone: the packet above is decoded
+    without error to 2 frames, channel 0 of frame 1 is whatever the buffer held before (two histories, two results) -/
+theorem alac_decode_history_witness :
+    let res := decode ⟨16, 2, 40, 10, 14, 255⟩ historyPacket historyPacket.length 4096
+    res.status = .ok ∧ res.outNum = 2 ∧ res.written = [[0x12340000], [0x10000, 0x20000]] ∧
+    transpose res.outNum (applyOut [[0, 0], [0, 0]] 2 res.written) = [[0x12340000, 0x10000], [0, 0x20000]] ∧
+    transpose res.outNum (applyOut [[5, 0x77770000], [6, 7]] 2 res.written) = [[0x12340000, 0x10000], [0x77770000, 0x20000]] := by
+  decide +kernel
 
 end Sf.AlacCore
